@@ -335,7 +335,7 @@ pub struct Doc {
 #[derive(Clone, Debug, Serialize, Deserialize)]
 pub struct HdCase {
     pub docs: Vec<Doc>,
-    /// plain | subst | function | loop | pipeline | two-on-one-line | herestring
+    /// plain | subst | function | loop | pipeline | two-on-one-line | herestring | trailing-words
     pub context: String,
 }
 
@@ -375,7 +375,7 @@ fn doc() -> BoxedStrategy<Doc> {
 }
 
 fn hd_cases() -> BoxedStrategy<HdCase> {
-    (proptest::collection::vec(doc(), 1..=3), proptest::sample::select(vec!["plain", "subst", "function", "loop", "pipeline", "two-on-one-line", "herestring", "plain"]))
+    (proptest::collection::vec(doc(), 1..=3), proptest::sample::select(vec!["plain", "subst", "function", "loop", "pipeline", "two-on-one-line", "herestring", "plain", "trailing-words", "trailing-words"]))
         .prop_map(|(docs, context)| HdCase { docs, context: context.to_string() })
         .boxed()
 }
@@ -427,6 +427,11 @@ fn hd_script(c: &HdCase) -> String {
                     "function" => s.push_str(&format!("hf{k}() {{\ncat {o}\n{b}}}\nhf{k}\nhf{k} > out{k}.txt\n")),
                     "loop" => s.push_str(&format!("for i in 1 2; do\ncat {o}\n{b}done\n")),
                     "pipeline" => s.push_str(&format!("cat {o} | tr a-z A-Z\n{b}")),
+                    // words with nested constructs after the operator, on its line
+                    "trailing-words" => s.push_str(&format!(
+                        "cat {o} > out-${{v}}-$((1+{k})).txt\n{b}cat out-VAL-{}.txt\necho w{k} {o} ${{v}} \"$(echo sub)\" $((2+3)) `echo bq` \"${{v:-d}}\" tail\n{b}",
+                        k + 1
+                    )),
                     _ => s.push_str(&format!("cat {o}\n{b}")),
                 }
                 s.push_str(&format!("echo \"st{k}:$?\"\n"));
